@@ -132,7 +132,7 @@ def ac_current_source(current_source: ccp.Component, w: float = 0, w_resolution:
         element
     )
 
-def complex_current_source(current_source: ccp.Component, w: float = 0, w_resolution: float = 1e-3) -> ntw.Branch:
+def complex_current_source(current_source: ccp.Component, *_) -> ntw.Branch:
     cs_I = complex(
         float(current_source.value['I_real']),
         float(current_source.value['I_imag'])
@@ -141,10 +141,7 @@ def complex_current_source(current_source: ccp.Component, w: float = 0, w_resolu
         float(current_source.value['G']),
         float(current_source.value['B'])
     )
-    cs_w = float(current_source.value['w'])
     element = elm.current_source(current_source.id, cs_I, cs_Y)
-    if np.abs(w-cs_w) > w_resolution:
-        element = elm.short_circuit(current_source.id)
     return ntw.Branch(
         current_source.nodes[0],
         current_source.nodes[1],
